@@ -274,7 +274,17 @@ def r3(ctx: Ctx, rep: Report):
         new_lock = [ev for ev in p.events if ev.kind == "stmt" and "store:_lock" in tags(ev)]
         if not new_lock:
             # must be the fast path: returns the existing lock after comparing the loops
-            cmp_loop = any(ev.kind == "test" and "_running_loop" in norm(ev.node) and ev.data is True for ev in p.events)
+            def same_loop(ev):
+                """a test establishing self._running_loop == <current loop> (either spelling)"""
+                n_ = ev.node
+                if ev.kind != "test" or not isinstance(n_, ast.Compare) or len(n_.ops) != 1 or "_running_loop" not in norm(n_):
+                    return False
+                if isinstance(n_.ops[0], (ast.Eq, ast.Is)):
+                    return ev.data is True
+                if isinstance(n_.ops[0], (ast.NotEq, ast.IsNot)):
+                    return ev.data is False
+                return False
+            cmp_loop = any(same_loop(ev) for ev in p.events)
             rep.check(cmp_loop, "C05.R3", "reuse:%s" % p.describe(), fn.loc(), "existing lock reused only when the running loop is unchanged",
                       bad="_ensure_lock reuses the lock without comparing the event loop [path %s]" % p.describe())
             continue
